@@ -212,6 +212,16 @@ theorem scan_prefix_none {F : Type} (att : Attempt F) (buf : Bytes)
     (by rw [List.drop_zero, hatt]; exact Res.not_isErr_ok _)
   rw [h, List.drop_zero, hatt]; rfl
 
+/-- … also for a one-byte buffer (never examined): any non-empty buffer -/
+theorem scan_prefix_none' {F : Type} (att : Attempt F) (buf : Bytes)
+    (hatt : att buf = .ok none) (hne : buf ≠ []) :
+    scan att buf = .ok none := by
+  by_cases hl : 2 ≤ buf.length
+  · exact scan_prefix_none att buf hatt hl
+  · have hb : buf.length ≠ 0 := fun h => hne (List.length_eq_zero_iff.1 h)
+    rw [scan_eq_scanFrom att buf hne]
+    exact scanFrom_end att buf 0 (by omega)
+
 /-- a panic of the attempt at the front of the buffer is a panic of the scan -/
 theorem scan_panic_at_zero {F : Type} (att : Attempt F) (buf : Bytes)
     (hatt : att buf = .panic) (hl : 2 ≤ buf.length) :
